@@ -311,6 +311,16 @@ def special(bct, name, n, seed):
             add('m', lambda: bct.reorderMAT(und[0], H=20))
         elif name == 'grid_communities':
             add('c', lambda: bct.grid_communities(cis[1]))
+    elif name == 'autofix':
+        # what the routine is for: matrices with inf / nan entries, nearly symmetric ones, nearly binary ones
+        for tag, M in (('und', und[0]), ('dir', dirw[0])):
+            X = np.array(M, dtype=float)
+            X[0, 1] = np.inf
+            X[1, 0] = np.nan
+            X[2, 2] = -np.inf
+            add('nonfinite:' + tag, lambda X=X: bct.autofix(X))
+            Y = np.array(M, dtype=float) * (1 + 1e-12 * np.triu(np.ones(M.shape), 1))
+            add('nearly_symmetric:' + tag, lambda Y=Y: bct.autofix(Y))
     elif name == 'participation_coef_sparse':
         try:
             import scipy.sparse as sp
